@@ -3,11 +3,42 @@ PID = "C15"
 RULE = ("server endpoint kinds reachable by a raw peer (socket, StartTLS socket, TLS socket, websocket, TLS websocket, KCP, KCP+StartTLS, DNS tunnel) x stall "
         "points {after connect, inside the first request line, between the two requests, inside a TLS hello / record header, garbage, none} x 2..3 "
         "well-behaved clients arriving meanwhile, each over its own physical session, each bounded by 3 s; plus the variant in which the "
-        "stalled peer's handshake reaches its own time limit first")
+        "stalled peer's handshake reaches its own time limit first; "
+        "endpoint scripts (c15m): the real accept loops of SocketServer and PacketServer, net/http with the real EndpointHandler, the real "
+        "IoServer and the real AcceptConnection over in-memory listeners and connections (and the servers' own Startup on loopback), x {plain, "
+        "TLS from the first octet, certificate or none} x 2..40 peers each following its own plan - well-behaved (with or without StartTLS), "
+        "stalled at every point of its handshake (TLS hellos, websocket upgrade included) with or without a fragment sent, slow (every request "
+        "in two halves), refused in every way at every point, closing, its own deadline passing - interleaved at random, with accept "
+        "errors and Shutdown; distinct_nontrivial = distinct (carrier, stall, n) resp. distinct scripts")
 EXPLANATION = ("Props/C15.v: the accept-loop model one level up (listener loop, handshake inline or spawned - read from the source for the socket "
-               "and packet servers; net/http spawns per request). The scenarios stall a raw peer and require other clients to be served.")
-TRUSTED = ["net/http's goroutine per request (websocket endpoints)", "the DNS endpoint's sessions are stalled by real tunnel peers over loopback UDP; its housekeeping pass (once a minute) is reached in the thorough tier only"]
+               "and packet servers; net/http spawns per request). The scenarios stall a raw peer and require other clients to be served. "
+               "Endpoint model (Mux/Endpoint.v): per peer its connection (open / closed by the server), the deadline on it, the goroutine that sets up "
+               "its session with a program counter over the steps of the accept loop's goroutine literal / EndpointHandler / IoServer.Startup, "
+               "AcceptConnection, NewServerConnection, handshake and upgrade (TLS hellos included) and what it is blocked on; per endpoint the accept "
+               "loop with its program counter; arbitrary schedule and environment (a peer connects, sends a complete message / a fragment / garbage, "
+               "closes; the clock passes a deadline; Accept fails; Shutdown). Proved for every event list and any number of peers: the loop is never "
+               "blocked on a peer and gives the oldest waiting connection its goroutine with its next step (c15_endpoint_loop_never_blocked, "
+               "_accept_serves); FRAME - an event of peer i, its deadline passing included, changes no other peer's record and nothing of the endpoint "
+               "(c15_endpoint_frame); INDEPENDENCE - what peer j's session set-up can do next and what becomes of it is a function of j's own record "
+               "(c15_endpoint_independent); BOUNDED STALL - a goroutine reads from its peer only under the deadline, and a peer whose deadline has "
+               "passed is gone (connection closed, goroutine ended) after three steps of its own goroutine whatever anybody else does "
+               "(c15_endpoint_deadline_armed_while_reading, _stall_bounded); a well-behaved peer is established after 6 to 9 steps of its own "
+               "goroutine whatever the others do (c15_endpoint_good_peer_completes). Refuted with computed witnesses: the handshake inline, the TLS "
+               "handshake on the loop, a lock across the StartTLS handshake, a deadline on the shared socket, a semaphore of n pending handshakes and "
+               "a bound of n requests in flight (n = 1..24), no close on a failed handshake, no deadline, deadline not cleared, accept error without "
+               "close / ending the loop. The switches are read from the source by role on every run (Gen/EndpointShape.v, one obligation each); the "
+               "extracted model follows them and is compared token for token with the real servers (c15m).")
+TRUSTED = ["net/http's goroutine per request (websocket endpoints)", "the DNS endpoint's sessions are stalled by real tunnel peers over loopback UDP; its housekeeping pass (once a minute) is reached in the thorough tier only",
+           "endpoint model: each statement group of the Go code between two blocking points is one atomic step; a peer's input is a queue of complete "
+           "messages plus 'octets that complete nothing'; a deadline that has passed fails a Read at once (net.Conn), and a Write too except through "
+           "a websocket (gorilla sets the write deadline anew before every message); crypto/tls's lazy handshake at the first Read, net/http's "
+           "per-connection goroutine and its handling of a malformed request (400, close) are modelled as observed, not verified",
+           "endpoint scripts: the harness's in-memory listener and connections (they record Close and SetDeadline; the script, not the wall clock, lets a "
+           "deadline pass; the loopback variants use the real clock with a 400 ms limit); goroutines are counted from the goroutine profile by "
+           "function name under a profiler label; quiescence = every server goroutine blocked in Accept or in a Read on its own peer's connection"]
 RUN_TIMEOUT = 3000
+
+from . import ecases as _e
 
 
 def cases(tier, rng):
@@ -30,8 +61,8 @@ def cases(tier, rng):
             cs.append({"line": line, "key": line, "tags": {"carrier": c, "stall": st}})
     # the stalled peer's own handshake runs into its time limit (1.5 s here) before the others arrive: they must still be served
     for c, st in (("tcp", "connect"), ("tcp-starttls", "tlshello"), ("tcp+tls", "connect"), ("kcp", "halfline"), ("kcp-starttls", "between"), ("ws", "connect")):
-        if tier != "thorough" and c in ("ws", "kcp-starttls"):
-            continue
+        if tier != "thorough" and (c in ("ws", "kcp-starttls", "tcp-starttls", "tcp+tls")):
+            continue       # (quick: the endpoint scripts below let a deadline pass on a StartTLS and on a TLS endpoint, in memory and on loopback)
         line = "c15 %s %s %d 1" % (c, st, n)
         cs.append({"line": line, "key": line, "model": False, "tags": {"carrier": c, "stall": st + "+expired"}})
     # twenty peers stalled at the same point at the same time (a bound on pending handshakes must not shut the others out)
@@ -72,10 +103,18 @@ def cases(tier, rng):
     for ms in ((1500, 63000) if tier == "thorough" else (1500,)):
         line = "c15 dns connect %d 0 2 %d" % (n, ms)
         cs.append({"line": line, "key": line, "model": False, "tags": {"carrier": "dns", "stall": "connect+stale%d" % ms}})
+    # the real accept loops (SocketServer, PacketServer, net/http with the real EndpointHandler), the real IoServer and the real AcceptConnection
+    # / NewServerConnection driven peer by peer by scripts of environment events (a peer connects, sends a complete message / a fragment /
+    # garbage, closes; the clock passes its deadline; Accept fails; Shutdown), compared token for token with the endpoint model (Mux/Endpoint.v)
+    cs += _e.fixed(rng)
+    for i in range(400 if tier == "thorough" else 50):
+        cs.append(_e.random_case(rng, tier == "thorough"))
     return cs
 
 
 def oracle(case, impl):
+    if case["line"].startswith("c15m "):
+        return _e.oracle(case, impl)
     t = case["tags"]
     p = impl.split()
     if not p or p[0] in ("panic", "died", "timeout", "harness-error", "setup"):
@@ -86,13 +125,41 @@ def oracle(case, impl):
 
 
 def agree(case, impl, model):
+    if case["line"].startswith("c15m "):
+        return _e.agree(case, impl, model)
     return None if impl == model else "accept-loop"
+
+
+def shrink(case):
+    if case["line"].startswith("c15m "):
+        return _e.shrink(case)
+    return iter(())
+
+
+def distribution(cs):
+    d = {}
+    for c in cs:
+        k = "%s/%s" % (c["tags"].get("carrier", "-"), c["tags"].get("stall", c["tags"].get("src", "-")))
+        d[k] = d.get(k, 0) + 1
+    return d
 
 
 META = {
     "level_text": "Partial: Coq theorems over the listener accept-loop model (handshake inline or on its own goroutine, read from the source per "
                   "server kind): with the handshake spawned the loop returns to accepting without any byte from a connected peer. Raw peers "
-                  "stalled at five points of the handshake, with well-behaved clients arriving meanwhile, run on socket and websocket endpoints.",
-    "level_note": "Go scheduling and kernel accept queues are not modelled; the packet and DNS endpoints are covered by the shape fact and the model.",
-    "technique": "Coq proof over an accept-loop transition system + stalled-peer scenarios on loopback",
+                  "stalled at five points of the handshake, with well-behaved clients arriving meanwhile, run on socket and websocket endpoints. "
+                  "A second model makes every goroutine and resource of the endpoints explicit (accept loop with its program counter; per peer the "
+                  "connection, the deadline on it, the goroutine that sets up its session with a program counter over acceptConnection's goroutine / "
+                  "EndpointHandler / IoServer.Startup, AcceptConnection, NewServerConnection, handshake, upgrade and the TLS hellos; arbitrary schedule "
+                  "and environment): proved for every event list and any number of peers that the loop is never blocked on a peer, that an event of "
+                  "one peer - its deadline passing included - changes nothing of another (frame), that a peer's progress depends on its own record "
+                  "only (independence), that every read from a peer is under the deadline and a peer whose deadline has passed is gone after three "
+                  "steps of its own goroutine, and that a well-behaved peer is established after 6-9 of its own steps whatever the others do; eleven "
+                  "defect variants are refuted with computed witnesses. The model's switches are read from the source by role on every run and the "
+                  "extracted model is compared token for token with the real accept loops, EndpointHandler, IoServer and AcceptConnection over "
+                  "scripted histories.",
+    "level_note": "Go scheduling and kernel accept queues are not modelled; crypto/tls, net/http and gorilla/websocket are modelled as observed. The DNS "
+                  "endpoint shares the socket server's loop (read from the source) and is exercised by the loopback scenarios only.",
+    "technique": "Coq proofs over an accept-loop transition system and over a resource-explicit endpoint model (invariant over all schedules) + scripted "
+                 "correspondence with the real servers over in-memory listeners + stalled-peer scenarios on loopback",
 }
